@@ -144,16 +144,23 @@ Qed.
 Lemma sort_ids_length l : length (sort_ids l) = length l.
 Proof. apply Permutation_length, sort_ids_perm. Qed.
 
+Lemma forallb_perm {A} (f : A -> bool) l l' : Permutation l l' -> forallb f l = forallb f l'.
+Proof.
+  induction 1 as [|x l l' P IH|x y l|l l' l'' P1 IH1 P2 IH2]; cbn [forallb]; try congruence.
+  now rewrite !andb_assoc, (andb_comm (f y) (f x)).
+Qed.
+
 (* C20: NewSession accepts exactly the well-formed parameter sets *)
 Theorem new_session_ok_iff p :
   new_session_ok p = true <->
-  NoDup (sp_ids p) /\ In (sp_self p) (sp_ids p) /\
+  NoDup (sp_ids p) /\ (forall id, In id (sp_ids p) -> id_ok (sp_group p) id = true) /\ In (sp_self p) (sp_ids p) /\
   (0 <= sp_thr p <= max_uint32)%Z /\ (sp_thr p <= Z.of_nat (length (sp_ids p)) - 1)%Z.
 Proof.
   unfold new_session_ok. rewrite !andb_true_iff, ids_valid_sort_iff, ids_contains_sort_iff, sort_ids_length.
+  rewrite (forallb_perm _ _ _ (sort_ids_perm (sp_ids p))), forallb_forall.
   rewrite !Z.leb_le, Z.ltb_lt. split.
-  - intros [[[[[H1 H2] H3] H4] H5] H6]. repeat split; assumption.
-  - intros (H1 & H2 & [H3 H4] & H5). repeat split; try assumption.
+  - intros [[[[[[H1 H0] H2] H3] H4] H5] H6]. repeat split; assumption.
+  - intros (H1 & H0 & H2 & [H3 H4] & H5). repeat split; try assumption.
     destruct (sp_ids p); [contradiction | simpl; lia].
 Qed.
 
